@@ -126,6 +126,41 @@ def unterminated_literals(run: common.Run, report) -> None:
                     return
 
 
+DEEP_SHAPES = {
+    "parens": lambda n: "(" * n + "1" + ")" * n,
+    "lists": lambda n: "[" * n + "1" + "]" * n,
+    "maps": lambda n: "{'a': " * n + "1" + "}" * n,
+    "calls": lambda n: "dyn(" * n + "1" + ")" * n,
+    "not": lambda n: "!" * n + "true",
+    "neg": lambda n: "- " * n + "1",
+    "index": lambda n: "[" * n + "1" + "]" * n + "[0]" * n,
+    "select": lambda n: "{'a': " * n + "1" + "}" * n + ".a" * n,
+    "plus": lambda n: "1" + " + 1" * n,
+    "and": lambda n: "true" + " && true" * n,
+    "ternary": lambda n: "true ? " * n + "1" + " : 0" * n,
+    "macro": lambda n: "".join(f"[1].map(v{i}, " for i in range(n)) + "1" + ")" * n,
+    "method": lambda n: "'a'" + ".size().string()" * n if False else "[1]" + ".map(x, x)" * n,
+}
+
+
+def deep_nesting(run: common.Run, report) -> None:
+    """Each construct nested / chained 12 and 32 deep (what every CEL implementation must support) must end in a value or a CEL error under both runners;
+    100 and 300 deep it must still not end in another exception - where it does (RecursionError, Python's own limits on generated code) the key names the
+    exception, so that a recorded limitation and a new failure are told apart."""
+    for shape, build in DEEP_SHAPES.items():
+        for depth in (12, 32, 100, 300):
+            src = build(depth)
+            for r in ("I", "C"):
+                run.tick()
+                run.event(f"deep:{shape}")
+                kind, bucket = eval_once(src, {}, r)
+                run.nt(("deep", shape, depth, r))
+                if kind == "crash":
+                    exc = bucket.split("@")[0].split("-")[-1]
+                    where = "within-32" if depth <= 32 else "beyond-32"
+                    report(f"deep-nesting-{where}-{r}-{exc}", {"src": src if len(src) < 400 else None, "shape": shape, "depth": depth, "route": r}, f"{shape} x {depth} under {r}: {bucket}")
+
+
 def eval_once(src: str, binds: Dict[str, Any], runner: str) -> Tuple[str, str]:
     """('value'|'error'|'parse'|'crash', bucket)"""
     try:
@@ -193,6 +228,8 @@ def replay(run: common.Run, case: dict, key: str = ""):
     rep = lambda k, c, d: problems.append((k, d))
     if "package" in case:
         package_pass(run, rep)
+    elif "shape" in case:
+        deep_nesting(run, rep)
     elif "text" in case:
         check_compile(run, case["text"], rep)
     elif "node" in case:
@@ -276,6 +313,7 @@ def main(run: common.Run) -> None:
         run.event("replayed")
     package_pass(run, run.fail)
     unterminated_literals(run, run.fail)
+    deep_nesting(run, run.fail)
     if run.tier == "quick":
         corpus_pass(run, run.fail, shard=(run.seed % 2, 2))  # half of the corpus per run (seed parity); thorough runs all of it
         campaign(run)
